@@ -502,7 +502,7 @@ pub fn case(t: &mut Tape, ctx: &CaseCtx) -> CaseResult {
 pub fn run(mut run: Run) -> i32 {
     run.replay_committed(&case);
     run.random("generator programs x schedules", &[Tape::encode_choice(0, 2)], run.n(200_000, 4_000_000), 120, &case);
-    run.random("state machine, gated environment", &[Tape::encode_choice(1, 2)], run.n(60_000, 1_200_000), 400, &case);
+    run.random("state machine, gated environment", &[Tape::encode_choice(1, 2)], run.n(150_000, 1_500_000), 400, &case);
     run.finish(
         RULE,
         300,
